@@ -347,6 +347,36 @@ _PURE_CALLS = {"isinstance", "issubclass", "len", "hasattr", "getattr", "type", 
                "tuple", "frozenset", "min", "max", "abs", "id", "repr"}
 
 
+def split_tuple_assign(tree):
+    """`a, b = X, Y` -> `a = X` ; `b = Y` for plain local names on the left and as many names / attribute chains on the right (the alias idiom), none of
+    which mentions a target (so the values are the same whether all of them or only the earlier ones were evaluated before
+    a target is bound; binding a local has no effect of its own)."""
+    n = 0
+    for node in ast.walk(tree):
+        for fld in ("body", "orelse", "finalbody"):
+            blk = getattr(node, fld, None)
+            if not (isinstance(blk, list) and blk and isinstance(blk[0], ast.stmt)):
+                continue
+            out = []
+            for st in blk:
+                if isinstance(st, ast.Assign) and len(st.targets) == 1 and isinstance(st.targets[0], ast.Tuple) and isinstance(st.value, ast.Tuple) \
+                        and len(st.targets[0].elts) == len(st.value.elts) and all(isinstance(t, ast.Name) for t in st.targets[0].elts) \
+                        and all(isinstance(v, (ast.Name, ast.Attribute)) and _chain(v) is not None for v in st.value.elts):
+                    tn = {t.id for t in st.targets[0].elts}
+                    if len(tn) == len(st.targets[0].elts) and not any(isinstance(x, ast.Name) and x.id in tn for v in st.value.elts for x in ast.walk(v)):
+                        for t, v in zip(st.targets[0].elts, st.value.elts):
+                            out.append(ast.copy_location(ast.Assign(targets=[t], value=v, lineno=st.lineno), st))
+                        n += 1
+                        continue
+                out.append(st)
+            blk[:] = out
+        if isinstance(node, ast.Try):
+            for h in node.handlers:
+                pass
+    ast.fix_missing_locations(tree)
+    return n
+
+
 def is_pure(e):
     for n in ast.walk(e):
         if isinstance(n, ast.Call):
